@@ -213,55 +213,45 @@ func (st *Settings) Read(d []byte) error {
 }
 
 // Encode encodes settings to be sent through the wire.
+//
+// A parameter is written when its value is not the one the peer assumes
+// anyway (RFC 7540 6.5.2), so that a zero, which is a meaningful value for the
+// table size, the number of streams and the window, can be announced too.
+// SETTINGS_ENABLE_PUSH is only ever written as 0: 1 is what the peer assumes.
 func (st *Settings) Encode() {
 	st.rawSettings = st.rawSettings[:0]
 
-	if st.tableSize != 0 {
-		st.rawSettings = append(st.rawSettings,
-			byte(HeaderTableSize>>8), byte(HeaderTableSize),
-			byte(st.tableSize>>24), byte(st.tableSize>>16),
-			byte(st.tableSize>>8), byte(st.tableSize),
-		)
+	if st.tableSize != defaultHeaderTableSize {
+		st.rawSettings = appendSetting(st.rawSettings, HeaderTableSize, st.tableSize)
 	}
 
-	if st.enablePush {
-		st.rawSettings = append(st.rawSettings,
-			byte(EnablePush>>8), byte(EnablePush),
-			0, 0, 0, 1,
-		)
+	if !st.enablePush {
+		st.rawSettings = appendSetting(st.rawSettings, EnablePush, 0)
 	}
 
-	if st.maxStreams != 0 {
-		st.rawSettings = append(st.rawSettings,
-			byte(MaxConcurrentStreams>>8), byte(MaxConcurrentStreams),
-			byte(st.maxStreams>>24), byte(st.maxStreams>>16),
-			byte(st.maxStreams>>8), byte(st.maxStreams),
-		)
+	// there is no value for "no limit", which is what the peer assumes
+	st.rawSettings = appendSetting(st.rawSettings, MaxConcurrentStreams, st.maxStreams)
+
+	if st.windowSize != defaultWindowSize {
+		st.rawSettings = appendSetting(st.rawSettings, MaxWindowSize, st.windowSize)
 	}
 
-	if st.windowSize != 0 {
-		st.rawSettings = append(st.rawSettings,
-			byte(MaxWindowSize>>8), byte(MaxWindowSize),
-			byte(st.windowSize>>24), byte(st.windowSize>>16),
-			byte(st.windowSize>>8), byte(st.windowSize),
-		)
+	// zero is not a frame size: the field has not been set
+	if st.frameSize != 0 && st.frameSize != defaultDataFrameSize {
+		st.rawSettings = appendSetting(st.rawSettings, MaxFrameSize, st.frameSize)
 	}
 
-	if st.frameSize != 0 {
-		st.rawSettings = append(st.rawSettings,
-			byte(MaxFrameSize>>8), byte(MaxFrameSize),
-			byte(st.frameSize>>24), byte(st.frameSize>>16),
-			byte(st.frameSize>>8), byte(st.frameSize),
-		)
-	}
-
+	// zero stands for no limit here
 	if st.headerSize != 0 {
-		st.rawSettings = append(st.rawSettings,
-			byte(MaxHeaderListSize>>8), byte(MaxHeaderListSize),
-			byte(st.headerSize>>24), byte(st.headerSize>>16),
-			byte(st.headerSize>>8), byte(st.headerSize),
-		)
+		st.rawSettings = appendSetting(st.rawSettings, MaxHeaderListSize, st.headerSize)
 	}
+}
+
+func appendSetting(dst []byte, id uint16, value uint32) []byte {
+	return append(dst,
+		byte(id>>8), byte(id),
+		byte(value>>24), byte(value>>16), byte(value>>8), byte(value),
+	)
 }
 
 // IsAck returns true if settings has FlagAck set.
